@@ -352,9 +352,9 @@ macro_rules! require {
 #[macro_export]
 macro_rules! reached {
     ($c:expr, $what:literal) => {{
-        #[cfg(kani)]
+        #[cfg(all(kani, feature = "covers"))]
         kani::cover($c, $what);
-        #[cfg(not(kani))]
+        #[cfg(not(all(kani, feature = "covers")))]
         let _ = $c;
     }};
 }
